@@ -80,6 +80,9 @@ type Contract struct {
 	NoEscape      bool
 	GoSafe        bool // spawn rule: no panic may escape a goroutine started by this function
 	AssumeNoPanic bool
+	InLoop        []*SExpr // inloop ensures E: checked at every return statement lexically inside a loop body
+	InLoopSrc     []string
+	UserData      map[string]bool // userdata v: nested pointers inside the user-provided value v are assumed allocated
 	Safe          bool // implicit panic sites of the function's own code are obligations; callee panics propagate
 	Pure          bool
 	Uses          []string
@@ -405,6 +408,22 @@ func (cs *ContractSet) loadFile(path, pkgPath string) error {
 						cur.Modifies = append(cur.Modifies, f)
 					}
 				}
+			case "inloop":
+				body := strings.TrimSpace(strings.TrimPrefix(rest, "ensures"))
+				x, err := parse(body)
+				if err != nil {
+					return err
+				}
+				cur.InLoop = append(cur.InLoop, x)
+				cur.InLoopSrc = append(cur.InLoopSrc, body)
+			case "userdata":
+				if cur.UserData == nil {
+					cur.UserData = map[string]bool{}
+				}
+				for _, n := range strings.Fields(rest) {
+					cur.UserData[n] = true
+				}
+				cs.Assumes = append(cs.Assumes, fmt.Sprintf("%s: userdata %s (pointers nested inside these user-provided values are assumed non-nil)", cur.Key, rest))
 			case "assumenopanic":
 				// callers may rely on the function not panicking although this is not proved here
 				cur.AssumeNoPanic = true
@@ -533,6 +552,9 @@ func (cs *ContractSet) loadFile(path, pkgPath string) error {
 			case "loop":
 				parts := strings.SplitN(rest, ":", 2)
 				n, err := strconv.Atoi(strings.TrimSpace(parts[0]))
+				if strings.TrimSpace(parts[0]) == "*" { // every loop in whose scope the invariant's variables are (stored under 0)
+					n, err = 0, nil
+				}
 				if err != nil || len(parts) != 2 {
 					return fail(i, "bad loop clause")
 				}
